@@ -6,6 +6,17 @@ import os
 HERE = os.path.dirname(os.path.dirname(os.path.abspath(__file__)))
 
 CHECKS = {
+    "C07": dict(
+        text="Byte-level Lean model of the child's report writer and the parent's stderr parser (split at \\n, "
+             "bytes.split, Python int() grammar, header search, completeness test, UTF-8 validity). Theorems for all "
+             "byte strings: round trip through any non-spoofing newline-terminated noise before and any bytes after, "
+             "every strict prefix (every byte offset) of a report yields a communication error, spawn failure yields an "
+             "error, int(str(n)) round trip. Tied to the code by running the real spawn_layer_in_subprocess on the same "
+             "byte strings through a fake Popen and the real SubProcess.report; the property is monitored on the real outcome.",
+        note="pipe EOF on child death, reaping and grandchildren holding the pipe are OS behaviour (not modelled); names "
+             "must be valid UTF-8; header-looking or unterminated noise before the report is KNOWN-FINDING D10",
+        technique="Lean 4 theorems on byte-level model + differential correspondence through a fake Popen",
+        design="§5 C07"),
     "C08": dict(
         text="Lean theorems over all pattern lists, names and match matrices (spec, permutation and duplicate "
              "invariance, monotonicity with the exact guards); model tied to build_filtering_func by exhaustive "
